@@ -12,16 +12,19 @@ import (
 // C13: NextOne / PrevOne against a linear scan.
 
 type c13Case struct {
-	Words gen.Words `json:"words"`
+	Words gen.Words `json:"words,omitempty"`
 	I     int32     `json:"i"`
 	End   int32     `json:"end"`
+	// big bitmaps are named by (length, pattern) instead of being listed
+	Len     int `json:"len,omitempty"`
+	Pattern int `json:"pattern,omitempty"`
 }
 
 func init() {
 	mc.Register(&mc.Property{
 		ID:    "C13",
 		Level: "exploration",
-		Rule: "E1 bounded-exhaustive enumeration: every bitmap of 1..N words over {0, 1, 1<<63, 1|1<<63, 1<<31, ^0, 3<<62} × every range 0 ≤ i ≤ end ≤ 64·len with i inside the bitmap: NextOne; and PrevOne for end ≥ 1. plus long sparse bitmaps (24/33 words, thorough 40/70; all zero except ≤2 islands at every pair of positions) × every range whose ends lie within 1 of a word boundary or half-word; oracle: linear scan over [i,end). " +
+		Rule: "E1 bounded-exhaustive enumeration: every bitmap of 1..N words over {0, 1, 1<<63, 1|1<<63, 1<<31, ^0, 3<<62} × every range 0 ≤ i ≤ end ≤ 64·len with i inside the bitmap: NextOne; and PrevOne for end ≥ 1. plus long sparse bitmaps (24/33 words, thorough 40/70; all zero except ≤2 islands at every pair of positions) × every range whose ends lie within 1 of a word boundary or half-word; and nearly empty bitmaps within 9 words of every power of two from 2^10 to 2^14 words with ranges spanning almost everything; oracle: linear scan over [i,end). " +
 			"A case is one call; non-trivial when the bitmap has a 1 and the range is non-empty.",
 		Assumptions: []string{"other word patterns are not enumerated (the code's case splits are: first/last word masked, all-zero words skipped, result clipped to the range)"},
 		Run:         c13Run,
@@ -76,6 +79,7 @@ func c13Run(c *mc.Ctx) {
 	for _, L := range []int{c.Pick(24, 40), c.Pick(33, 70)} {
 		c13Long(c, L)
 	}
+	c13Big(c)
 	c.Par(len(shards), func(si int) {
 		if c.TooMany() {
 			return
@@ -121,7 +125,7 @@ func c13Run(c *mc.Ctx) {
 						want = -1
 					}
 					if got, p := nextOne(w, i, end); p || got != want {
-						c.Fail(order, "NextOne", "NextOne", c13Case{append(gen.Words(nil), w...), i, end}, "", "")
+						c.Fail(order, "NextOne", "NextOne", c13Case{Words: append(gen.Words(nil), w...), I: i, End: end}, "", "")
 					}
 					evals++
 					if end >= 1 {
@@ -130,7 +134,7 @@ func c13Run(c *mc.Ctx) {
 							want = -1
 						}
 						if got, p := prevOne(w, i, end); p || got != want {
-							c.Fail(order, "PrevOne", "PrevOne", c13Case{append(gen.Words(nil), w...), i, end}, "", "")
+							c.Fail(order, "PrevOne", "PrevOne", c13Case{Words: append(gen.Words(nil), w...), I: i, End: end}, "", "")
 						}
 						evals++
 					}
@@ -240,7 +244,7 @@ func c13Long(c *mc.Ctx, L int) {
 					want = -1
 				}
 				if got, p := nextOne(w, i, end); p || got != want {
-					c.Fail(order, "NextOne", "NextOne", c13Case{append(gen.Words(nil), w...), i, end}, "", "")
+					c.Fail(order, "NextOne", "NextOne", c13Case{Words: append(gen.Words(nil), w...), I: i, End: end}, "", "")
 				}
 				evals++
 				if end >= 1 {
@@ -249,7 +253,7 @@ func c13Long(c *mc.Ctx, L int) {
 						want = -1
 					}
 					if got, p := prevOne(w, i, end); p || got != want {
-						c.Fail(order, "PrevOne", "PrevOne", c13Case{append(gen.Words(nil), w...), i, end}, "", "")
+						c.Fail(order, "PrevOne", "PrevOne", c13Case{Words: append(gen.Words(nil), w...), I: i, End: end}, "", "")
 					}
 					evals++
 				}
@@ -264,6 +268,102 @@ func c13Long(c *mc.Ctx, L int) {
 	})
 }
 
+// c13Big: bitmaps within 9 words of every power of two from 2^10 to 2^14 words (size
+// thresholds), nearly empty, with ranges spanning almost everything.
+func c13Big(c *mc.Ctx) {
+	type job struct{ l, pat int }
+	var jobs []job
+	for p := uint(10); p <= 14; p++ {
+		for _, d := range []int{-1, 0, 1, 7, 8, 9} {
+			for pat := 0; pat < 3; pat++ {
+				jobs = append(jobs, job{1<<p + d, pat})
+			}
+		}
+	}
+	c.Par(len(jobs), func(ji int) {
+		if c.TooMany() {
+			return
+		}
+		j := jobs[ji]
+		w := make([]uint64, j.l)
+		switch j.pat {
+		case 0:
+			w[j.l-1] = 1<<63 | 1
+		case 1:
+			w[0] = 1<<63 | 1
+		case 2:
+			w[j.l/2] = 1 << 17
+			w[j.l-9] = 1
+		}
+		nb := int32(64 * j.l)
+		first := make([]int32, nb+1)
+		last := make([]int32, nb+1)
+		first[nb] = -1
+		for i := nb - 1; i >= 0; i-- {
+			if w[i>>6]>>uint(i&63)&1 == 1 {
+				first[i] = i
+			} else {
+				first[i] = first[i+1]
+			}
+		}
+		last[0] = -1
+		for e := int32(1); e <= nb; e++ {
+			if w[(e-1)>>6]>>uint((e-1)&63)&1 == 1 {
+				last[e] = e - 1
+			} else {
+				last[e] = last[e-1]
+			}
+		}
+		pts := []int32{0, 1, 63, 64, 65, nb / 2, nb/2 + 17, nb/2 + 18, nb - 577, nb - 576, nb - 575, nb - 65, nb - 64, nb - 1, nb}
+		var evals int64
+		for _, i := range pts {
+			if i >= nb || i < 0 {
+				continue
+			}
+			for _, end := range pts {
+				if end < i {
+					continue
+				}
+				want := first[i]
+				if want >= end {
+					want = -1
+				}
+				if got, p := nextOne(w, i, end); p || got != want {
+					c.Fail(int64(2)<<56|int64(ji)<<16, "NextOne", "NextOne", c13Case{Len: j.l, Pattern: j.pat, I: i, End: end}, "", "")
+				}
+				evals++
+				if end >= 1 {
+					want = last[end]
+					if want < i {
+						want = -1
+					}
+					if got, p := prevOne(w, i, end); p || got != want {
+						c.Fail(int64(2)<<56|int64(ji)<<16, "PrevOne", "PrevOne", c13Case{Len: j.l, Pattern: j.pat, I: i, End: end}, "", "")
+					}
+					evals++
+				}
+			}
+		}
+		c.Count(evals, evals)
+		c.Expect(evals)
+		c.Add("power_of_two_length_bitmaps", 1)
+	})
+}
+
+func c13BigBitmap(l, pat int) []uint64 {
+	w := make([]uint64, l)
+	switch pat {
+	case 0:
+		w[l-1] = 1<<63 | 1
+	case 1:
+		w[0] = 1<<63 | 1
+	case 2:
+		w[l/2] = 1 << 17
+		w[l-9] = 1
+	}
+	return w
+}
+
 func sortI32(a []int32) {
 	for i := 1; i < len(a); i++ {
 		for j := i; j > 0 && a[j] < a[j-1]; j-- {
@@ -274,6 +374,9 @@ func sortI32(a []int32) {
 
 func c13Judge(kind string, cs c13Case) (got, want string) {
 	w := []uint64(cs.Words)
+	if cs.Len > 0 {
+		w = c13BigBitmap(cs.Len, cs.Pattern)
+	}
 	bit := func(i int32) bool { return w[i>>6]>>uint(i&63)&1 == 1 }
 	switch kind {
 	case "NextOne":
